@@ -17,6 +17,7 @@ func init() {
 			"PV-PAIR: the sample operation of a binary operation is applied only to a pair matched by grouping key; CH-SIB: all AggregatedLabels implementers agree on the key of the empty set; PV-RESET with the tightened construction-mode exemption; step stamped",
 			"PV-FRESH: per-step group tables; CH-SIB: Key and AsLokiAPI add no condition of their own to the shared enumeration",
 			"PV-PAIR rangeAggIterator.Next output: the reported series are walked from a key list computed from the window in the same step",
+			"PV-RESET literalBinOpIterator.Next: accepted results reach r.Samples and the list is cut/set to them",
 		},
 		NotDecided: []string{"64-bit hash collisions between distinct encodings", "count conservation as arithmetic"},
 		Rules: func(r *Run) {
@@ -35,6 +36,7 @@ func init() {
 			ruleKeySiblings(r)
 			rulePerStepGroupTables(r, []string{"vectorAggIterator", "vectorAggHeapIterator", "binOpIterator"})
 			ruleRangeWindow(r) // every series of the window is reported: the key list is computed from the window in this step
+			ruleLiteralBinOpWritesBack(r)
 		},
 	})
 }
